@@ -352,11 +352,20 @@ func Source(t *tape.Tape, opt Options) Spec {
 	case len(sp.Imports) == 0:
 	case len(sp.Imports) == 1 && t.Bool(1, 2):
 		fmt.Fprintf(sb, "import %s\n\n", spec(sp.Imports[0]))
+	case len(sp.Imports) >= 2 && t.Bool(1, 6):
+		// one declaration per import, each with its own comment (several import declarations can
+		// then become empty in one restore)
+		for i, im := range sp.Imports {
+			fmt.Fprintf(sb, "// import %d: %s\nimport %s\n\n", i, g.comment(), spec(im))
+		}
 	default:
 		// one or two blocks
 		split := len(sp.Imports)
 		if len(sp.Imports) > 2 && t.Bool(1, 4) {
 			split = 1 + t.Draw(len(sp.Imports)-1)
+		}
+		if t.Bool(1, 4) {
+			fmt.Fprintf(sb, "// first imports: %s\n", g.comment())
 		}
 		sb.WriteString("import (\n")
 		for i, im := range sp.Imports[:split] {
@@ -367,6 +376,9 @@ func Source(t *tape.Tape, opt Options) Spec {
 		}
 		sb.WriteString(")\n\n")
 		if split < len(sp.Imports) {
+			if t.Bool(1, 3) {
+				fmt.Fprintf(sb, "// more imports: %s\n", g.comment())
+			}
 			sb.WriteString("import (\n")
 			for _, im := range sp.Imports[split:] {
 				sb.WriteString(spec(im) + "\n")
